@@ -118,3 +118,58 @@ Print Assumptions C10_accepted_run_wf.
 Print Assumptions C10_reference_order_independent.
 Print Assumptions C10_decide_iff.
 Print Assumptions C10_fc_is_graph_fc.
+
+(* ================= L1 (worker link): the line-by-line model of abft REFINES the reference =================
+   abft_run = the extracted-and-tested adapter of the C10 driver (Build + Process per event on
+   model/AbftRun.v, observations rendered as the reference's output).  Side conditions (LinkDefs.link_side):
+   the validator list is in canonical form (mk_vals vals = vals: weight desc, id asc, no zero weights, no
+   duplicate ids) with total weight < 2^31, no input id has the shape of a temporary id of one of the
+   run's Builds (low 192 bits between 1 and the number of events), fewer than 2^192 events.
+   Index correctness is taken from worker vecidx (fc = fc_spec, merged = merged_spec under vinv) and
+   worker bft (fc_n = fc_spec); proofs/Link*.v. *)
+From LV Require Import model.Abft model.AbftRun proofs.LinkVals proofs.LinkDefs proofs.LinkFresh proofs.LinkRun proofs.LinkExample.
+
+Theorem C10_model_refines_reference : forall cap lam,
+  forall vals D, link_side vals D -> valid_run vals D -> abft_run cap lam vals D = reference vals D.
+Proof. exact link_full. Qed.
+
+Theorem C10_full_for_the_model : forall cap lam, C10_full_on link_side (abft_run cap lam).
+Proof. exact link_full. Qed.
+
+(* non-vacuity: a valid run inside the side conditions (4 validators, 48 events, a forker, two blocks
+   of which the second names the forker); the instance of the theorem agrees with evaluating the model *)
+Example C10_model_example :
+  link_side ex2_vals ex2_D /\ valid_run ex2_vals ex2_D /\
+  snd (reference ex2_vals ex2_D) = [(1, 1000, []); (2, 1015, [37094])] /\
+  existsb (forker (table ex2_vals ex2_D)) (seq 0 4) = true /\
+  abft_run 200 (fun _ => 0) ex2_vals ex2_D = reference ex2_vals ex2_D.
+Proof. exact (conj ex2_side (conj ex2_valid (conj ex2_blocks (conj ex2_has_forker ex2_refines_by_evaluation)))). Qed.
+
+Print Assumptions C10_model_refines_reference.
+Print Assumptions C10_full_for_the_model.
+
+(* ---- L1 without the canonical-order side condition: validator list in ANY order ----
+   link_side_raw vals D: no duplicate validator ids, no zero weights (what ValidatorsBuilder produces),
+   total weight < 2^31, ids not temporary ids of the run's Builds, fewer than 2^192 events.
+   The code sorts the list (mk_vals); the reference is equivariant under that re-arrangement
+   (proofs/LinkEquiv.v: reference_pn; proofs/LinkPerm.v: mk_vals_canon). *)
+From LV Require Import proofs.LinkPerm proofs.LinkEquiv proofs.LinkRaw.
+
+Theorem C10_model_refines_reference_any_order : forall cap lam,
+  forall vals D, link_side_raw vals D -> valid_run vals D -> abft_run cap lam vals D = reference vals D.
+Proof. exact link_full_raw. Qed.
+
+(* the reference does not depend on the order in which the validators are listed *)
+Theorem C10_reference_validator_order_independent : forall vals, canon_order (vals' vals) = seq 0 (length vals) ->
+  forall D, valid_run vals D ->
+    valid_run (vals' vals) (map (pe vals) D) /\ reference (vals' vals) (map (pe vals) D) = reference vals D.
+Proof. exact reference_pn. Qed.
+
+Example C10_model_example_any_order :
+  mk_vals ex_vals <> ex_vals /\ link_side_raw ex_vals ex3_D /\ valid_run ex_vals ex3_D /\
+  snd (reference ex_vals ex3_D) = [(1, 1000, []); (2, 1015, [37094])] /\
+  abft_run 200 (fun _ => 0) ex_vals ex3_D = reference ex_vals ex3_D.
+Proof. exact (conj ex3_not_canonical (conj ex3_side (conj ex3_valid (conj ex3_blocks ex3_refines_by_evaluation)))). Qed.
+
+Print Assumptions C10_model_refines_reference_any_order.
+Print Assumptions C10_reference_validator_order_independent.
